@@ -390,6 +390,36 @@ def run(ctx):
            any(c.name == "minijinja::utils::UndefinedBehavior::is_true" for c in arms.calls_in(ev, vm_not)) and vm_tab["Not"][1],
            "", ev.loc)
 
+    # ---- K9: the folder takes every folded value from somewhere the run time would take it from - the constant
+    # operands themselves, the shared operator functions (K1/K2), the container constructors (K5).  It never
+    # *fabricates* a value: the only value built from a Rust scalar inside as_const is `Value::from(!v.is_true())`
+    # of the Not arm (K4).  A second fabrication site (e.g. `Some(Value::from(false))` for `0 and x`) is a fold
+    # that does not go through the run-time operation.
+    import re as _re
+    nfab = 0
+    ac_ = prog.fn(AS_CONST)
+    sw9 = arms.enum_switches(prog, ac_, "minijinja::compiler::ast::Expr")
+    cmp_region = arms.arm_regions(prog, ac_, sw9[0][0], "minijinja::compiler::ast::Expr").get("Compare", set()) if sw9 else set()
+    for f in [prog.fn(AS_CONST)] + prog.closures_of(AS_CONST):
+        for c in f.calls():
+            n = c.name
+            if not (_re.search(r"From<.*> for minijinja::value::Value>::from$", n) or n.startswith("minijinja::value::Value::from")):
+                continue
+            nfab += 1
+            os_ = flow.origins(f, c.args[0]) if c.args else []
+            is_not = bool(os_) and all(o.kind == "un" and o.rv.get("op") == "Not" and any(
+                x.kind == "call" and x.call.name == "minijinja::value::Value::is_true" for x in flow.origins(f, o.rv["a"]))
+                for o in os_)
+            # the truth value of a comparison chain (K6 checks how it is computed) is a bool at run time too
+            if f is ac_ and c.bb in cmp_region and os_ and all(o.kind == "const" and o.const.get("ty") == "bool" for o in os_):
+                is_not = True
+            ctx.ob("C04.K9.folder-does-not-fabricate-values", "%s|%s" % (f.path.replace(AS_CONST, "as_const"), _re.sub(r"^.*From<(.*)> for.*$", lambda m_: "from<%s>" % m_.group(1), n)),
+                   is_not,
+                   "as_const builds a value from a Rust scalar (%s) instead of taking the result of the run-time operation on "
+                   "the constant operands: the folded expression yields another value than the same expression with "
+                   "variables" % [repr(o) for o in os_], f.where(c.bb))
+    ctx.floor("C04.K9 value constructions inside as_const", nfab, 1)
+
     # ---- K5
     def ctor_family(f, region=None):
         out = set()
